@@ -623,7 +623,8 @@ class Renderer:
     def program(self, p: dict):
         for imp in p.get("imports", []):
             self.e("import", "\n")
-            self.e('"' + imp + '"', " ")
+            q = '"' if self.ch(2) == 0 else "'"  # the path is a STRING_LITERAL: either quote style
+            self.e(q + imp + q, " ")
             self.e(";", "")
         # macros and routines may be interleaved: p["order"] lists ("m", i) / ("r", i)
         order = p.get("order")
